@@ -51,32 +51,32 @@ def renderStdRest (A : Atoms α) : List (LogicalOp × Sk α) → Input
 end
 
 mutual
-theorem renders_std_simple (A : Atoms α) (tight : Bool) :
-    ∀ sk : Sk α, WF sk = true → isSimple sk = true → RendersSimple A tight sk (renderStd A sk)
+theorem renders_std_simple (env : PEnv) (A : Atoms α) (tight : Bool) :
+    ∀ sk : Sk α, WF sk = true → isSimple sk = true → RendersSimple env A tight sk (renderStd A sk)
   | .atom a, _, _ => .atom a
   | .not s, h, _ => by
     simp only [WF, Bool.and_eq_true] at h
-    exact .not "not" [' '] (by decide) rfl (renders_std_simple A tight s h.2 h.1)
+    exact .not "not" [' '] (by decide) rfl rfl (renders_std_simple env A tight s h.2 h.1)
   | .paren s, h, _ => by
     simp only [WF] at h
-    exact .paren [] [] rfl rfl (renders_std A tight s h)
+    exact .paren [] [] rfl rfl (renders_std env A tight s h)
   | .chain _ _, _, h => by simp [isSimple] at h
-theorem renders_std (A : Atoms α) (tight : Bool) :
-    ∀ sk : Sk α, WF sk = true → Renders A tight sk (renderStd A sk)
+theorem renders_std (env : PEnv) (A : Atoms α) (tight : Bool) :
+    ∀ sk : Sk α, WF sk = true → Renders env A tight sk (renderStd A sk)
   | .atom a, _ => .simple (.atom a)
-  | .not s, h => .simple (renders_std_simple A tight (.not s) h rfl)
-  | .paren s, h => .simple (renders_std_simple A tight (.paren s) h rfl)
+  | .not s, h => .simple (renders_std_simple env A tight (.not s) h rfl)
+  | .paren s, h => .simple (renders_std_simple env A tight (.paren s) h rfl)
   | .chain f r, h => by
     simp only [WF, Bool.and_eq_true] at h
-    exact .chain (renders_std_simple A tight f h.1.2 h.1.1) (renders_std_tail A tight r _ h.2)
-theorem renders_std_tail (A : Atoms α) (tight : Bool) :
+    exact .chain (renders_std_simple env A tight f h.1.2 h.1.1) (renders_std_tail env A tight r _ h.2)
+theorem renders_std_tail (env : PEnv) (A : Atoms α) (tight : Bool) :
     ∀ (r : List (LogicalOp × Sk α)) (b : Bool), WFRest r = true →
-      RendersTail A tight b r (renderStdRest A r)
+      RendersTail env A tight b r (renderStdRest A r)
   | [], b, _ => .nil b
   | (o, s) :: r, b, h => by
     simp only [WFRest, Bool.and_eq_true] at h
     exact .cons [' '] (stdAlias o) [' '] rfl (stdAlias_mem o) rfl (by simp [sepOk])
-      (renders_std_simple A tight s h.1.2 h.1.1) (renders_std_tail A tight r _ h.2)
+      (renders_std_simple env A tight s h.1.2 h.1.1) (renders_std_tail env A tight r _ h.2)
 end
 
 end WfModel.Render
